@@ -1165,15 +1165,22 @@ theorem ednsFrom_wf (r : Record) (e : Edns) (hr : RecV r) (ht : r.rtype = T_OPT)
     | (show r.ttl / 65536 % 256 < 256; omega)
     | (show r.ttl % 32768 < 32768; omega)
 
+/-- is the value a TSIG? (`read_records` gives such a record to `signature`) -/
+def _root_.HickoryVerif.Wire.RData.isTsig : RData → Bool
+  | .tsig _ _ _ _ _ _ _ => true
+  | _ => false
+
 /-- what `read_records` keeps in a section's list -/
 def Kept (isAdd : Bool) (op : Nat) (r : Record) : Prop :=
   RecV r ∧ (r.rdata.isUpdate = true → op = OP_UPDATE ∧ r.rtype ≠ T_OPT) ∧
-  (isAdd = false → r.rtype ≠ T_OPT ∧ r.rtype ≠ T_SIG ∧ r.rtype ≠ T_TSIG)
+  (isAdd = false → r.rtype ≠ T_OPT ∧ r.rtype ≠ T_SIG ∧ r.rtype ≠ T_TSIG) ∧
+  (isAdd = true → r.rdata.isTsig = false)
 
 /-- the accumulator of `read_records` -/
 def AccV (isAdd : Bool) (op : Nat) (acc : RecAcc) : Prop :=
   (∀ r ∈ acc.1, Kept isAdd op r) ∧
-  (∀ e, acc.2.1 = some e → EdnsWF e)
+  (∀ e, acc.2.1 = some e → EdnsWF e) ∧
+  (∀ s, acc.2.2 = some s → RecV s ∧ s.rdata.isTsig = true)
 
 theorem post_records (opq : Nat → Rd Bytes) (isAdd : Bool) (op : Nat) :
     ∀ (count : Nat) (acc : RecAcc), AccV isAdd op acc →
@@ -1194,27 +1201,28 @@ theorem post_records (opq : Nat → Rd Bytes) (isAdd : Bool) (op : Nat) :
       · exact hop
       · exact absurd ⟨hop, ht, hu⟩ n1
     have push : (r.rdata.isUpdate = true → r.rtype ≠ T_OPT) → (isAdd = false → r.rtype ≠ T_OPT ∧ r.rtype ≠ T_SIG ∧ r.rtype ≠ T_TSIG) →
+        (isAdd = true → r.rdata.isTsig = false) →
         PostV (readRecords opq isAdd op count (recs ++ [r], edns, sig)) (AccV isAdd op) := by
-      intro hk1 hk2
+      intro hk1 hk2 hk3
       refine post_records opq isAdd op count _ ⟨?_, h.2⟩
       intro x hx
       simp only [List.mem_append, List.mem_singleton] at hx
       rcases hx with hx | rfl
       · exact h.1 x hx
-      · exact ⟨hr, fun hu => ⟨hupd hu (hk1 hu), hk1 hu⟩, hk2⟩
+      · exact ⟨hr, fun hu => ⟨hupd hu (hk1 hu), hk1 hu⟩, hk2, hk3⟩
     refine PostV.ite _ (fun hna => ?_) (fun ha => ?_)
     · have hf : isAdd = false := by simpa using hna
       have hnt : r.rtype ≠ T_OPT ∧ r.rtype ≠ T_SIG ∧ r.rtype ≠ T_TSIG := by
         refine ⟨fun hc => n3 ⟨hna, Or.inl hc⟩, fun hc => n3 ⟨hna, Or.inr (Or.inl hc)⟩,
           fun hc => n3 ⟨hna, Or.inr (Or.inr hc)⟩⟩
-      exact push (fun _ => hnt.1) (fun _ => hnt)
+      exact push (fun _ => hnt.1) (fun _ => hnt) (fun hc => by rw [hf] at hc; cases hc)
     · have ht : isAdd = true := by simpa using ha
       have hk2 : isAdd = false → r.rtype ≠ T_OPT ∧ r.rtype ≠ T_SIG ∧ r.rtype ≠ T_TSIG := by
         intro hc; rw [ht] at hc; cases hc
       have hedns : ∀ e, r.rtype = T_OPT → ednsFrom r = .ok e →
           PostV (readRecords opq isAdd op count (recs, some e, sig)) (AccV isAdd op) := by
         intro e hto he
-        refine post_records opq isAdd op count _ ⟨h.1, ?_⟩
+        refine post_records opq isAdd op count _ ⟨h.1, ?_, h.2.2⟩
         intro e' he'
         simp only [Option.some.injEq] at he'
         subst he'
@@ -1222,7 +1230,11 @@ theorem post_records (opq : Nat → Rd Bytes) (isAdd : Bool) (op : Nat) :
       cases hd : r.rdata
       case tsig a1 a2 a3 a4 a5 a6 a7 =>
         simp only
-        exact post_records opq isAdd op count _ ⟨h.1, h.2⟩
+        refine post_records opq isAdd op count _ ⟨h.1, h.2.1, ?_⟩
+        intro s hs
+        simp only [Option.some.injEq] at hs
+        subst hs
+        exact ⟨hr, by rw [hd]; rfl⟩
       case opt os =>
         simp only
         refine PostV.ite _ (fun _ => PostV.fail) (fun _ => ?_)
@@ -1238,10 +1250,10 @@ theorem post_records (opq : Nat → Rd Bytes) (isAdd : Bool) (op : Nat) :
         · refine PostV.ite _ (fun _ => PostV.fail) (fun _ => ?_)
           refine PostV.bind (P := fun e => ednsFrom r = .ok e) (PostV.lift fun a ha => ha) fun e he => ?_
           exact hedns e (by rw [← htt]; exact hto) he
-        · exact push (fun _ => by rw [← htt]; exact hto) hk2
+        · exact push (fun _ => by rw [← htt]; exact hto) hk2 (fun _ => by rw [hd]; rfl)
       all_goals
         simp only
-        exact push (fun hu => by rw [hd] at hu; cases hu) hk2
+        exact push (fun hu => by rw [hd] at hu; cases hu) hk2 (fun _ => by rw [hd]; rfl)
 
 /-! ### the message -/
 
@@ -1266,10 +1278,11 @@ def MsgV (m : Message) : Prop :=
   ∃ md0 : Metadata, md0.id < 65536 ∧ md0.op < 16 ∧ md0.rcode < 16 ∧ m.md = mergeRcode md0 m.edns ∧
     (∀ q ∈ m.queries, QV q) ∧ (∀ r ∈ m.answers, Kept false md0.op r) ∧
     (∀ r ∈ m.authorities, Kept false md0.op r) ∧ (∀ r ∈ m.additionals, Kept true md0.op r) ∧
-    (∀ e, m.edns = some e → EdnsWF e)
+    (∀ e, m.edns = some e → EdnsWF e) ∧
+    (∀ s, m.signature = some s → RecV s ∧ s.rdata.isTsig = true)
 
 theorem accV_nil (isAdd : Bool) (op : Nat) : AccV isAdd op ([], none, none) :=
-  ⟨fun r hr => (by cases hr), fun e he => (by cases he)⟩
+  ⟨fun r hr => (by cases hr), fun e he => (by cases he), fun s hs => (by cases hs)⟩
 
 theorem post_message (opq : Nat → Rd Bytes) : PostV (readMessage opq) MsgV := by
   unfold readMessage
@@ -1287,7 +1300,7 @@ theorem post_message (opq : Nat → Rd Bytes) : PostV (readMessage opq) MsgV := 
   refine PostV.bind (post_records opq true md.op counts.ar _ (accV_nil _ _)) fun x3 h3 => ?_
   obtain ⟨ar, e3, s3⟩ := x3
   simp only
-  exact PostV.pure _ ⟨md, hx.1, hx.2.1, hx.2.2, rfl, hqs, h1.1, h2.1, h3.1, h3.2⟩
+  exact PostV.pure _ ⟨md, hx.1, hx.2.1, hx.2.2, rfl, hqs, h1.1, h2.1, h3.1, h3.2.1, h3.2.2⟩
 
 /-- **What the decoder can produce**: a message decoded from any string of octets. -/
 theorem readMessage_msgV (opq : Nat → Rd Bytes) (b : Bytes) (m : Message) (p : Nat) (hb : Bytes.WF b)
@@ -1313,37 +1326,43 @@ theorem typeOK_not_special {d : RData} {t : Nat} (hp : d.proved = true) (h : d.t
   all_goals simp only [T_OPT]
   all_goals omega
 
-/-- the records of the message are all of covered RDATA variants or have empty RDATA (`Update0`); a
-SIG- or TSIG-typed record among the additionals is excluded (the other sections cannot hold one;
-`read_records` gives the last TSIG to `signature`, a SIG(0) record stays in the list) -/
+/-- a covered variant of type TSIG is the TSIG variant -/
+theorem typeOK_tsig {d : RData} (hp : d.proved = true) (h : d.typeOK T_TSIG) : d.isTsig = true := by
+  cases d <;> first | (simp [RData.proved] at hp; done) | skip
+  all_goals simp only [RData.typeOK, UnknownType, T_TSIG, List.mem_cons, List.not_mem_nil, or_false, not_or] at h
+  all_goals first | rfl | (exfalso; omega) | (exfalso; simp at h; done) | (exfalso; simp [isDnssec] at h; done) | (exfalso; obtain ⟨_, h2, _⟩ := h; omega)
+
+/-- the records of the message's sections are all of covered RDATA variants or have empty RDATA
+(`Update0`) — since stage 4 that is every record type hickory decodes, SIG(0) and TSIG-typed records
+among the additionals included -/
 structure Covered (m : Message) : Prop where
   an : ∀ r ∈ m.answers, r.rdata.proved = true ∨ r.rdata.isUpdate = true
   ns : ∀ r ∈ m.authorities, r.rdata.proved = true ∨ r.rdata.isUpdate = true
-  ar : ∀ r ∈ m.additionals, (r.rdata.proved = true ∨ r.rdata.isUpdate = true) ∧
-    r.rtype ≠ T_SIG ∧ r.rtype ≠ T_TSIG
-  sig : m.signature = none
+  ar : ∀ r ∈ m.additionals, r.rdata.proved = true ∨ r.rdata.isUpdate = true
 
 theorem sectionOK_of_kept {isAdd : Bool} {op : Nat} {r : Record} (hk : Kept isAdd op r)
-    (hc : r.rdata.proved = true ∨ r.rdata.isUpdate = true)
-    (hs : isAdd = true → r.rtype ≠ T_SIG ∧ r.rtype ≠ T_TSIG) :
-    SectionOK op r ∧ r.fq = r := by
-  obtain ⟨hv, hu, hna⟩ := hk
+    (hc : r.rdata.proved = true ∨ r.rdata.isUpdate = true) :
+    SectionOK op r isAdd ∧ r.fq = r := by
+  obtain ⟨hv, hu, hna, hnt⟩ := hk
   have hname : ({ r.name with fqdn := true } : Name) = r.name := fq_self hv.fqdn
-  have hs' : r.rtype ≠ T_SIG ∧ r.rtype ≠ T_TSIG := by
-    cases isAdd with
-    | true => exact hs rfl
-    | false => exact (hna rfl).2
+  have h2 : isAdd = false → r.rtype ≠ T_SIG ∧ r.rtype ≠ T_TSIG := fun hf => (hna hf).2
   rcases hc with hp | hup
-  · obtain ⟨h1, h2, h3, h4⟩ := hv.data hp
+  · obtain ⟨h1, h2', h3, h4⟩ := hv.data hp
     have hsp := typeOK_not_special hp h1
     have hnu : r.rdata.isUpdate = false := by
       cases hd : r.rdata <;> rw [hd] at hp <;> simp [RData.proved] at hp <;> rfl
-    refine ⟨⟨⟨hv.name, ⟨hv.rtype, hsp⟩, hv.cls, hv.ttl, Or.inr ⟨hp, h1, h2, h4⟩⟩, hs'.1, hs'.2, ?_⟩, ?_⟩
+    refine ⟨⟨⟨hv.name, ⟨hv.rtype, hsp⟩, hv.cls, hv.ttl, Or.inr ⟨hp, h1, h2', h4⟩⟩, h2, ?_, ?_⟩, ?_⟩
+    · intro ha ht
+      exfalso
+      rw [ht] at h1
+      have := typeOK_tsig hp h1
+      rw [hnt ha] at this
+      cases this
     · intro hc; rw [hnu] at hc; cases hc
     · simp only [Record.fq, hname, h3]
   · have hd := hv.upd hup
     obtain ⟨hop, hnopt⟩ := hu hup
-    refine ⟨⟨⟨hv.name, ⟨hv.rtype, hnopt⟩, hv.cls, hv.ttl, Or.inl hd⟩, hs'.1, hs'.2, fun _ => hop⟩, ?_⟩
+    refine ⟨⟨⟨hv.name, ⟨hv.rtype, hnopt⟩, hv.cls, hv.ttl, Or.inl hd⟩, h2, fun _ _ => hup, fun _ => hop⟩, ?_⟩
     simp only [Record.fq, hname]
     rw [hd]
     cases r with
@@ -1356,82 +1375,81 @@ theorem map_id_of {α} (f : α → α) (l : List α) (h : ∀ x ∈ l, f x = x) 
     simp only [List.map_cons]
     rw [h a (by simp), ih (fun x hx => h x (by simp [hx]))]
 
-/-- **`readMessage_wf`** — a message decoded from any string of octets whose records are covered and
-that carries no EDNS satisfies `MsgWF`, and every name in it is fully qualified. -/
-theorem readMessage_wf (opq : Nat → Rd Bytes) (b : Bytes) (m : Message) (p : Nat) (hb : Bytes.WF b)
-    (h : Rd.run (readMessage opq) b 0 = .ok (m, p)) (hc : Covered m) (hed : m.edns = none) :
-    MsgWF m ∧ AllFq m := by
-  obtain ⟨md0, hid, hop, hrc, hmd, hq, han, hns, har, _⟩ := readMessage_msgV opq b m p hb h
-  rw [hed] at hmd
-  simp only [mergeRcode] at hmd
-  have san : ∀ r ∈ m.answers, SectionOK m.md.op r ∧ r.fq = r := by
-    intro r hr; rw [hmd]
-    exact sectionOK_of_kept (han r hr) (hc.an r hr) (fun hf => by cases hf)
-  have sns : ∀ r ∈ m.authorities, SectionOK m.md.op r ∧ r.fq = r := by
-    intro r hr; rw [hmd]
-    exact sectionOK_of_kept (hns r hr) (hc.ns r hr) (fun hf => by cases hf)
-  have sar : ∀ r ∈ m.additionals, SectionOK m.md.op r ∧ r.fq = r := by
-    intro r hr; rw [hmd]
-    exact sectionOK_of_kept (har r hr) (hc.ar r hr).1 (fun _ => (hc.ar r hr).2)
-  refine ⟨⟨by rw [hmd]; exact hid, by rw [hmd]; exact hop, by rw [hmd]; exact hrc,
-    fun q hq' => ⟨(hq q hq').1, (hq q hq').2.2⟩, fun r hr => (san r hr).1, fun r hr => (sns r hr).1,
-    fun r hr => (sar r hr).1, hed, hc.sig⟩, ?_⟩
-  unfold AllFq Message.fq
-  rw [map_id_of _ _ (fun r hr => (san r hr).2), map_id_of _ _ (fun r hr => (sns r hr).2),
-    map_id_of _ _ (fun r hr => (sar r hr).2),
+/-- the three sections of a decoded, covered message -/
+theorem sections_of_msgV {m : Message} {md0 : Metadata} (hopm : m.md.op = md0.op) (hc : Covered m)
+    (han : ∀ r ∈ m.answers, Kept false md0.op r) (hns : ∀ r ∈ m.authorities, Kept false md0.op r)
+    (har : ∀ r ∈ m.additionals, Kept true md0.op r) :
+    (∀ r ∈ m.answers, SectionOK m.md.op r ∧ r.fq = r) ∧ (∀ r ∈ m.authorities, SectionOK m.md.op r ∧ r.fq = r) ∧
+      (∀ r ∈ m.additionals, SectionOK m.md.op r true ∧ r.fq = r) := by
+  refine ⟨?_, ?_, ?_⟩
+  · intro r hr; rw [hopm]; exact sectionOK_of_kept (han r hr) (hc.an r hr)
+  · intro r hr; rw [hopm]; exact sectionOK_of_kept (hns r hr) (hc.ns r hr)
+  · intro r hr; rw [hopm]; exact sectionOK_of_kept (har r hr) (hc.ar r hr)
+
+theorem fq_of_sections {m : Message} (hq : ∀ q ∈ m.queries, QV q)
+    (san : ∀ r ∈ m.answers, r.fq = r) (sns : ∀ r ∈ m.authorities, r.fq = r)
+    (sar : ∀ r ∈ m.additionals, r.fq = r) : m.fq = m := by
+  unfold Message.fq
+  rw [map_id_of _ _ san, map_id_of _ _ sns, map_id_of _ _ sar,
     map_id_of _ m.queries (fun q hq' => by
       have := (hq q hq').2.1
       show ({ q with name := { q.name with fqdn := true } } : Query) = q
       rw [fq_self this])]
+
+/-- **`readMessage_wf`** — a message decoded from any string of octets whose records are covered and
+that carries neither EDNS nor TSIG satisfies `MsgWF`, and every name in it is fully qualified. -/
+theorem readMessage_wf (opq : Nat → Rd Bytes) (b : Bytes) (m : Message) (p : Nat) (hb : Bytes.WF b)
+    (h : Rd.run (readMessage opq) b 0 = .ok (m, p)) (hc : Covered m) (hed : m.edns = none)
+    (hsig : m.signature = none) : MsgWF m ∧ AllFq m := by
+  obtain ⟨md0, hid, hop, hrc, hmd, hq, han, hns, har, _, _⟩ := readMessage_msgV opq b m p hb h
+  rw [hed] at hmd
+  simp only [mergeRcode] at hmd
+  obtain ⟨san, sns, sar⟩ := sections_of_msgV (by rw [hmd]) hc han hns har
+  refine ⟨⟨by rw [hmd]; exact hid, by rw [hmd]; exact hop, by rw [hmd]; exact hrc,
+    fun q hq' => ⟨(hq q hq').1, (hq q hq').2.2⟩, fun r hr => (san r hr).1, fun r hr => (sns r hr).1,
+    fun r hr => (sar r hr).1, hed, hsig⟩, ?_⟩
+  exact fq_of_sections hq (fun r hr => (san r hr).2) (fun r hr => (sns r hr).2) (fun r hr => (sar r hr).2)
 
 /-- the re-encoding of `m` under the 64 KiB limit of `to_vec` is `bs` and dropped nothing (known finding
 C02-F2 is a decodable message outside this predicate) -/
 def EncFits (m : Message) (bs : Bytes) : Prop :=
   ∃ md' c e', emitMessage m ((Enc.new []).setMaxSize 65535) = .ok (md', c) e' ∧ e'.buf = bs ∧
     c.an = m.answers.length ∧ c.ns = m.authorities.length ∧
-    c.ar = m.additionals.length + (if m.edns.isSome then 1 else 0)
+    c.ar = m.additionals.length + (if m.edns.isSome then 1 else 0) + (if m.signature.isSome then 1 else 0)
 
 /-
 FULL STATEMENT (kept visible):
   reencode_stable : readMessage b = .ok m → EncFits m bs → readMessage bs = .ok m        for every b
 Proved without any well-formedness hypothesis on the decoded message for byte strings whose records
-are of the covered RDATA variants (`Covered`), without TSIG; with and without EDNS.
+are of the covered RDATA variants (`Covered`: every record type hickory decodes); with and without EDNS,
+with and without a TSIG record (Proofs/C02Tsig.lean: `reencode_stable_decoded_tsig_partial`).
 -/
 
-/-- **Any string of octets that decodes (covered record types, no EDNS, no TSIG) re-encodes to bytes
-that decode to the same message**, provided the re-encoding fits. -/
+/-- **Any string of octets that decodes (no EDNS, no TSIG) re-encodes to bytes that decode to the same
+message**, provided the re-encoding fits. -/
 theorem reencode_stable_decoded_partial (opq : Nat → Rd Bytes) (b bs : Bytes) (m : Message) (p : Nat)
     (hb : Bytes.WF b) (hdec : Rd.run (readMessage opq) b 0 = .ok (m, p)) (hc : Covered m)
-    (hed : m.edns = none) (hfits : EncFits m bs) :
+    (hed : m.edns = none) (hsig : m.signature = none) (hfits : EncFits m bs) :
     Rd.run (readMessage opq) bs 0 = .ok (m, bs.length) := by
-  obtain ⟨hwf, hfq⟩ := readMessage_wf opq b m p hb hdec hc hed
+  obtain ⟨hwf, hfq⟩ := readMessage_wf opq b m p hb hdec hc hed hsig
   obtain ⟨md', c, e', he, rfl, h1, h2, h3⟩ := hfits
-  rw [hed] at h3
+  rw [hed, hsig] at h3
   exact reencode_stable_partial opq b m p hdec hfq hwf md' c e' he ⟨h1, h2, by simpa using h3⟩
 
 /-- the same with EDNS: the decoded `Edns` (options of all four kinds come out in the normal form
 `OptOK`) and the merged 12-bit response code satisfy `MsgWFE` -/
 theorem readMessage_wfe (opq : Nat → Rd Bytes) (b : Bytes) (m : Message) (ed : Edns) (p : Nat)
     (hb : Bytes.WF b) (h : Rd.run (readMessage opq) b 0 = .ok (m, p)) (hc : Covered m)
-    (hed : m.edns = some ed) : MsgWFE m ∧ AllFq m := by
-  obtain ⟨md0, hid, hop, hrc, hmd, hq, han, hns, har, hedns⟩ := readMessage_msgV opq b m p hb h
+    (hed : m.edns = some ed) (hsig : m.signature = none) : MsgWFE m ∧ AllFq m := by
+  obtain ⟨md0, hid, hop, hrc, hmd, hq, han, hns, har, hedns, _⟩ := readMessage_msgV opq b m p hb h
   have hew := hedns ed hed
   rw [hed] at hmd
   simp only [mergeRcode] at hmd
-  have hopm : m.md.op = md0.op := by rw [hmd]
-  have san : ∀ r ∈ m.answers, SectionOK m.md.op r ∧ r.fq = r := by
-    intro r hr; rw [hopm]
-    exact sectionOK_of_kept (han r hr) (hc.an r hr) (fun hf => by cases hf)
-  have sns : ∀ r ∈ m.authorities, SectionOK m.md.op r ∧ r.fq = r := by
-    intro r hr; rw [hopm]
-    exact sectionOK_of_kept (hns r hr) (hc.ns r hr) (fun hf => by cases hf)
-  have sar : ∀ r ∈ m.additionals, SectionOK m.md.op r ∧ r.fq = r := by
-    intro r hr; rw [hopm]
-    exact sectionOK_of_kept (har r hr) (hc.ar r hr).1 (fun _ => (hc.ar r hr).2)
+  obtain ⟨san, sns, sar⟩ := sections_of_msgV (by rw [hmd]) hc han hns har
   have hhigh := hew.high
   refine ⟨⟨by rw [hmd]; exact hid, by rw [hmd]; exact hop, ?_,
     fun q hq' => ⟨(hq q hq').1, (hq q hq').2.2⟩, fun r hr => (san r hr).1, fun r hr => (sns r hr).1,
-    fun r hr => (sar r hr).1, ?_, hc.sig⟩, ?_⟩
+    fun r hr => (sar r hr).1, ?_, hsig⟩, ?_⟩
   · rw [hmd]; show ed.rcodeHigh * 16 + md0.rcode % 16 < 4096; omega
   · intro ed' hed'
     rw [hed] at hed'
@@ -1440,22 +1458,16 @@ theorem readMessage_wfe (opq : Nat → Rd Bytes) (b : Bytes) (m : Message) (ed :
     rw [hmd]
     show ed.rcodeHigh = (ed.rcodeHigh * 16 + md0.rcode % 16) / 16 % 256
     omega
-  · unfold AllFq Message.fq
-    rw [map_id_of _ _ (fun r hr => (san r hr).2), map_id_of _ _ (fun r hr => (sns r hr).2),
-      map_id_of _ _ (fun r hr => (sar r hr).2),
-      map_id_of _ m.queries (fun q hq' => by
-        have := (hq q hq').2.1
-        show ({ q with name := { q.name with fqdn := true } } : Query) = q
-        rw [fq_self this])]
+  · exact fq_of_sections hq (fun r hr => (san r hr).2) (fun r hr => (sns r hr).2) (fun r hr => (sar r hr).2)
 
 /-- **… and with EDNS** (options of all four kinds, extended response codes). -/
 theorem reencode_stable_decoded_edns_partial (opq : Nat → Rd Bytes) (b bs : Bytes) (m : Message) (ed : Edns)
     (p : Nat) (hb : Bytes.WF b) (hdec : Rd.run (readMessage opq) b 0 = .ok (m, p)) (hc : Covered m)
-    (hed : m.edns = some ed) (hfits : EncFits m bs) :
+    (hed : m.edns = some ed) (hsig : m.signature = none) (hfits : EncFits m bs) :
     Rd.run (readMessage opq) bs 0 = .ok (m, bs.length) := by
-  obtain ⟨hwf, hfq⟩ := readMessage_wfe opq b m ed p hb hdec hc hed
+  obtain ⟨hwf, hfq⟩ := readMessage_wfe opq b m ed p hb hdec hc hed hsig
   obtain ⟨md', c, e', he, rfl, h1, h2, h3⟩ := hfits
-  rw [hed] at h3
+  rw [hed, hsig] at h3
   exact reencode_stable_edns_partial opq b m ed p hdec hfq hwf hed md' c e' he ⟨h1, h2, by simpa using h3⟩
 
 end HickoryVerif.C02
